@@ -75,7 +75,26 @@ func evalPlain(ip *interp.Interp, src string, env *object.Env) (ins string, errs
 type c20prog struct{ src, want string }
 
 func c20program(rng *rand.Rand, u string) c20prog {
-	switch rng.Intn(11) {
+	switch rng.Intn(16) {
+	case 11, 12:
+		// calls with many positional arguments (\N of arities the process may not have seen yet)
+		k := 10 + rng.Intn(70)
+		var args []string
+		for i := 1; i <= k; i++ {
+			args = append(args, fmt.Sprint(i))
+		}
+		return c20prog{fmt.Sprintf("{[\\9, \\%d, \\0.len]}(%s)", k, strings.Join(args, ", ")), fmt.Sprintf("[9, %d, %d]", k, k)}
+	case 13:
+		m := []string{"dummy", "dummy_native"}[rng.Intn(2)]
+		return c20prog{fmt.Sprintf("import(\"%s\").message", m), `"This is a dummy module."`}
+	case 14:
+		if rng.Intn(8) != 0 {
+			return c20prog{"m := import(\"dummy\"); n := import(\"dummy_native\"); m.message == n.message", "true"}
+		}
+		// (the http module evaluates a sizeable native source: kept rare)
+		return c20prog{"import(\"http\").keys", `["C", "Client", "Response", "S", "Server"]`}
+	case 15:
+		return c20prog{fmt.Sprintf("{|| invite!(\"%s\"); message.len}()", []string{"dummy", "dummy_native"}[rng.Intn(2)]), "23"}
 	case 0:
 		return c20prog{fmt.Sprintf("v_%s := 1; w_%s := v_%s + 1; {k_%s: w_%s}.k_%s", u, u, u, u, u, u), "2"}
 	case 1:
